@@ -353,3 +353,48 @@ Proof.
   intros H Hn z Hz. pose proof (all_range_spec _ _ _ H z ltac:(lia)) as K. cbn in K.
   destruct (Z.leb_spec n z); [lia|exact K].
 Qed.
+
+(* ---------------------------------------------------------------- more regex / strip facts *)
+Lemma m_star_app a s1 s2 : matches a s1 = true -> matches (Star a) s2 = true -> matches (Star a) (s1 ++ s2) = true.
+Proof. intros H1 H2. apply matches_ok. apply LStarS; apply matches_inv; assumption. Qed.
+Lemma m_star_nil a : matches (Star a) [] = true.
+Proof. reflexivity. Qed.
+Lemma m_starcat_prepend q x s1 s2 : matches q s1 = true -> matches (Cat (Star q) x) s2 = true ->
+  matches (Cat (Star q) x) (s1 ++ s2) = true.
+Proof.
+  intros H1 H2. apply matches_inv in H2. inversion H2; subst. rewrite app_assoc. apply matches_ok.
+  constructor; [|assumption]. apply LStarS; [apply matches_inv, H1|assumption].
+Qed.
+Lemma lstrip_id p s : (match s with c :: _ => p c = false | [] => True end) -> lstrip p s = s.
+Proof. destruct s as [|c s]; [reflexivity|]. cbn. intros ->. reflexivity. Qed.
+Lemma forallb_rev' {A} (p : A -> bool) l : forallb p (rev l) = forallb p l.
+Proof.
+  induction l as [|x l IH]; [reflexivity|]. cbn. rewrite forallb_app, IH. cbn. rewrite andb_true_r. apply andb_comm.
+Qed.
+Lemma strip_none p s : forallb (fun c => negb (p c)) s = true -> strip p s = s.
+Proof.
+  intros H. unfold strip, rstrip.
+  assert (K : forall t, forallb (fun c => negb (p c)) t = true -> lstrip p t = t).
+  { intros t Ht. apply lstrip_id. destruct t as [|c t]; [trivial|]. cbn in Ht. apply andb_true_iff in Ht as [Hc _].
+    apply negb_true_iff, Hc. }
+  rewrite (K s H). rewrite K by (rewrite forallb_rev'; exact H). apply rev_involutive.
+Qed.
+Lemma strip_spec p s : exists w1 w2, s = w1 ++ strip p s ++ w2 /\ forallb p w1 = true /\ forallb p w2 = true.
+Proof.
+  destruct (lstrip_spec p s) as (w1 & E1 & H1 & _).
+  destruct (lstrip_spec p (rev (lstrip p s))) as (a & E2 & H2 & _).
+  exists w1, (rev a). unfold strip, rstrip. repeat split; [|exact H1|rewrite forallb_rev'; exact H2].
+  rewrite <- rev_app_distr, <- E2, rev_involutive. exact E1.
+Qed.
+Lemma filter_all {A} (p : A -> bool) l : forallb p l = true -> filter p l = l.
+Proof.
+  induction l as [|x l IH]; [reflexivity|]. cbn. intros H. apply andb_true_iff in H as [H1 H2]. rewrite H1, (IH H2). reflexivity.
+Qed.
+Lemma list_ind3 {A} (P : list A -> Prop) :
+  P [] -> (forall a, P [a]) -> (forall a b, P [a; b]) -> (forall a b c r, P r -> P (a :: b :: c :: r)) -> forall l, P l.
+Proof.
+  intros H0 H1 H2 H3 l.
+  assert (K : P l /\ (forall a, P (a :: l)) /\ (forall a b, P (a :: b :: l))).
+  { induction l as [|x l (K0 & K1 & K2)]; [auto|]. repeat split; auto. }
+  apply K.
+Qed.
